@@ -52,14 +52,14 @@ theorem not_lockedByOther_owner {fs : FS} (hG : G fs) : fs.st.lockedByOther 0 = 
 set_option hygiene false in
 /-- finishes one owner case once `fs0`, `t'` are known and `hopc : fs.opc = <number>` -/
 macro "owner_fin" : tactic => `(tactic| (
-    refine ⟨⟨?_, ?_, ?_, ?_, ?_, ?_, ?_, ?_, ?_, ?_, ?_, ?_, ?_, ?_, ?_, ?_, ?_, ?_, ?_⟩, L.ofOwner hr hp hd ⟨?_, ?_⟩ hre hnp hok, ⟨?_, ?_, ?_, ?_, ?_⟩, rfl, rfl⟩
+    refine ⟨⟨?_, ?_, ?_, ?_, ?_, ?_, ?_, ?_, ?_, ?_, ?_, ?_, ?_, ?_, ?_, ?_, ?_, ?_, ?_⟩, L.ofOwner hr hp hd ⟨?_, ?_⟩ hre hnp hok, ⟨?_, ?_, ?_, ?_, ?_, ?_⟩, rfl, rfl⟩
     all_goals (simp_all [phaseOf, File.closeBy_linked, File.closeBy_perm]; done)))
 
 set_option hygiene false in
 /-- the same for a step that ends in `ownerNorm`: `t' = tn`, `hn : tn.pc = <number>`, `e1 … e4` = the fields `ownerNorm` keeps -/
 macro "owner_fin_norm" : tactic => `(tactic| (
     refine ⟨⟨?_, ?_, ?_, ?_, ?_, ?_, ?_, ?_, ?_, ?_, ?_, ?_, ?_, ?_, ?_, ?_, ?_, ?_, ?_⟩,
-      L.ofOwner (e2.trans hr) (e1.trans hp) hd ⟨?_, ?_⟩ (e3 ▸ hre) (e4 ▸ hnp) (e4 ▸ hok), ⟨?_, ?_, ?_, ?_, ?_⟩, e1, e2⟩
+      L.ofOwner (e2.trans hr) (e1.trans hp) hd ⟨?_, ?_⟩ (e3 ▸ hre) (e4 ▸ hnp) (e4 ▸ hok), ⟨?_, ?_, ?_, ?_, ?_, ?_⟩, e1, e2⟩
     all_goals (simp_all [phaseOf]; done)))
 
 set_option maxHeartbeats 4000000 in
